@@ -13,7 +13,7 @@ from props import _design
 
 TITLE = "formula-based samplers return only valid sequences"
 LEVEL = "proof"
-DOMAINS = ['Design', 'Compile']
+DOMAINS = ['Compile', 'Design']
 STRATS = ("CMSGen", "UniGen", "IterateGen", "UniformGen")
 
 
